@@ -55,6 +55,19 @@ def budget(tier):
 
 
 def _gen(g):
+    if g.chance(10):
+        n = g.int(2, 12)
+        return {"kind": "seqf", "maxsize": g.choice([1, 1, 2, 3]), "keys": [g.int(0, 3) for _ in range(n)],
+                "fails": [g.chance(30) for _ in range(n)]}
+    if g.chance(5):
+        # targeted shape: one key with three or more concurrent callers (its lock sees a queue), later two new keys
+        # called while the first of them is still computing: the second must not wait for the first
+        callers = [[0, 0, False], [0, 0, False], [g.int(0, 1), 0, False]] + ([[1, 0, False]] if g.bool() else []) \
+            + [[g.int(6, 8), 1, False], [g.int(8, 10), 2, False]] + ([[g.int(9, 11), 3, False]] if g.bool() else [])
+        return {"kind": "conc", "config": g.choice(["S", "S", "E", "U"]), "maxsize": g.choice([None, None, 3]),
+                "typed": False, "ttl": None, "ac": g.chance(30), "outcomes": ["ok"],
+                "callers": callers, "ctl": [["open", 2, 0], ["open", g.int(22, 26), 0]],
+                "nest": 0}
     if g.chance(20):
         typed = g.bool()
         pool = [0, 1, 2, 3] + (([4, 5] if typed else [g.choice([4, 5])]) if g.bool() else [])
@@ -374,8 +387,66 @@ def run_conc(case, out, stats):
         out.bad("hang", err[0], err[1])
 
 
+def run_seqfail(case, out):
+    """One call at a time, some of them failing. Known finding F3 shows in such histories only as an extra execution
+    (a failing call evicts before it computes), never as retained results, internal errors or foreign values - so
+    those three are judged here with signatures of their own."""
+    maxsize = case["maxsize"]
+
+    async def main(loop):
+        execs = []
+        mode = {"fail": False}
+
+        @lru_cache(maxsize=maxsize)
+        async def fn(k):
+            execs.append(k)
+            if mode["fail"]:
+                raise Boom(k, len(execs))
+            return (k, len(execs))
+
+        for k, fail in zip(case["keys"], case["fails"]):
+            mode["fail"] = fail
+            n0 = len(execs)
+            try:
+                v = await fn(k)
+            except Boom as e:
+                if not fail or e.args[0] != k or len(execs) == n0:
+                    out.bad("c20:provenance", "seqfail-exception", f"{case}: call {k} got {e!r}")
+                continue
+            except Exception as e:  # noqa: BLE001
+                out.bad("c20:internal-error", "sequential", f"{case}: call {k} observed {type(e).__name__}: {e!r}")
+                continue
+            if v[0] != k or (fail and len(execs) == n0 and False):
+                out.bad("c20:provenance", "seqfail-value", f"{case}: call {k} got {v!r}")
+            if fail and len(execs) > n0:
+                out.bad("c20:provenance", "seqfail-value", f"{case}: failing execution of {k} returned {v!r}")
+        mode["fail"] = False
+        served = 0
+        for k in sorted(set(case["keys"])):
+            n0 = len(execs)
+            try:
+                await fn(k)
+            except Exception as e:  # noqa: BLE001
+                out.bad("c20:internal-error", "sequential-probe", f"{case}: probe {k}: {e!r}")
+                continue
+            if len(execs) == n0:
+                served += 1
+        if maxsize is not None and served > maxsize:
+            out.bad("c20:retention", "sequential", f"{case}: {served} results served from the cache with maxsize={maxsize}")
+        info = fn.cache_info()
+        if maxsize is not None and info.currsize > maxsize:
+            out.bad("c20:retention", "sequential-currsize", f"{case}: cache_info().currsize={info.currsize} > maxsize={maxsize}")
+
+    run_on("S", main, budget=20000)
+
+
 def run_case(case) -> Outcome:
     out = Outcome()
+    if case["kind"] == "seqf":
+        run_seqfail(case, out)
+        out.nontrivial = any(case["fails"]) and len(set(case["keys"])) >= 2
+        out.labels.append("seqfail")
+        return out
     if case["kind"] == "seq":
         run_seq(case, out)
         out.nontrivial = len(set(case["keys"])) >= 2 and case["maxsize"] not in (None, 0)
